@@ -171,7 +171,20 @@ def classify(case, issue, o):
     # finding: join_blocks leaves the encodings/types/profile/SCCs entry of the absorbed block
     if issue["kind"] == "aux-key" and issue["name"] in ("encodings", "types", "profile", "SCCs"):
         return "C05:" + SIG_JOIN_LEAVES_AUX
+    # finding: a block that two functions list is removed: only the function the cache knows it by forgets it
+    if issue["kind"] == "aux-key" and issue["name"] in ("functionBlocks", "functionEntries") and shared_block_removed(case):
+        return "C05:" + SIG_SHARED_BLOCK
     return "C05:" + issue["kind"]
+
+
+SIG_SHARED_BLOCK = "block-listed-by-two-functions-stays-in-the-tables-of-one-when-it-is-removed"
+
+
+def shared_block_removed(case):
+    text = emodify.flat_of(case)
+    shared = {i for i, _ in case.get("shared", [])}
+    return any(e["op"] != "insert" and e["block"] in shared and e["off"] == 0 and e.get("len") == emodify.block_size(text[e["block"]])
+               for e in case.get("edits", []))
 
 
 def flush(ctx, pending):
@@ -316,6 +329,12 @@ def run(ctx):
                                 "align": [8, 16, 32][k % 3], "at": k % 2, "count": 1 + (k // 3) % 3})
     for _ in range(ctx.budget(60, 1500)):
         check_case(ctx, bss_case(ctx.rng), pending)
+    import glob
+    import os
+
+    for f in sorted(glob.glob(os.path.join(os.path.dirname(os.path.dirname(os.path.dirname(os.path.abspath(__file__)))), "corpus", "c05", "*.json"))):
+        ctx.count("corpus")
+        check_case(ctx, json.load(open(f)), pending)
     for c in LE.load_corpus():
         ctx.count("corpus")
         check_case(ctx, c, pending)
